@@ -237,6 +237,51 @@ func serverHandlers(c *an.Check) *srvHandlers {
 	h.clear = one(closuresWhere(h.sess, func(g *ssa.Function) bool {
 		return storesField(g, h.recvClearF, func(v ssa.Value) bool { return !isNilConst(v) })
 	}))
+	// the dispatch in the read loop says which closure handles which request body (more stable than what they store: a
+	// clear handler that files its value in the ack slot is still the clear handler, and must be judged as one)
+	byField := func(field string) *ssa.Function {
+		var found []*ssa.Function
+		for _, g := range an.WithClosures(h.sess) {
+			for _, b := range g.Blocks {
+				for _, ins := range b.Instrs {
+					call, ok := ins.(*ssa.Call)
+					if !ok || call.Call.IsInvoke() || call.Call.StaticCallee() != nil && call.Call.StaticCallee().Parent() == nil {
+						continue
+					}
+					hit := false
+					for _, a := range call.Call.Args {
+						if u, isLoad := a.(*ssa.UnOp); isLoad {
+							if fa, isFA := u.X.(*ssa.FieldAddr); isFA && an.FieldOfAddr(fa) != nil && an.FieldOfAddr(fa).Name() == field {
+								hit = true
+							}
+						}
+					}
+					if !hit {
+						continue
+					}
+					if f := call.Call.StaticCallee(); f != nil {
+						found = append(found, f)
+						continue
+					}
+					for _, src := range waitSources(p, call.Call.Value) {
+						if mc, isMC := src.(*ssa.MakeClosure); isMC {
+							found = append(found, mc.Fn.(*ssa.Function))
+						}
+					}
+				}
+			}
+		}
+		if len(found) == 1 {
+			return found[0]
+		}
+		return nil
+	}
+	if f := byField("AckMsg"); f != nil {
+		h.ack = f
+	}
+	if f := byField("ClearMsg"); f != nil {
+		h.clear = f
+	}
 	h.check = one(pkgFuncsWhere(p, srvPkg, func(f *ssa.Function) bool {
 		sig := f.Signature
 		return sig.Recv() != nil && sig.Params().Len() == 1 && sig.Results().Len() == 2 && sig.Results().At(0).Type().String() == "bool" && sig.Results().At(1).Type().String() == "error" && isNamedPtr(sig.Recv().Type(), "sessionTracker")
@@ -537,6 +582,8 @@ func c21(c *an.Check) {
 	if h == nil {
 		return
 	}
+	// client Send: an acknowledgement is consumed only by the call whose message occupies the outgoing slot
+	ownCheck(c)
 	// server: ack
 	ackReqs := append(h.common(h.ack), an.FactReq("pending delivered seqno == acked seqno", func(s *an.State, x, y ssa.Value, r an.Rel) bool {
 		u, ok := x.(*ssa.UnOp)
